@@ -8,6 +8,8 @@ package absnfs
 
 import (
 	"io"
+
+	"github.com/absfs/absfs"
 	"sync/atomic"
 	"time"
 )
@@ -105,3 +107,47 @@ func VerifWriteVerf(s *Server) [8]byte { return s.writeVerf }
 // ---- host filter (C09) ----
 func VerifServerIPAllowed(s *Server, ip string) bool     { return s.isIPAllowed(ip) }
 func VerifAuthIPAllowed(ip string, allowed []string) bool { return isIPAllowed(ip, allowed) }
+
+// ---- file handle table (C05, C06) ----
+
+func VerifNewFileHandleMap(maxHandles int) *FileHandleMap {
+	return &FileHandleMap{
+		handles:     make(map[uint64]absfs.File),
+		pathHandles: make(map[string]uint64),
+		nextHandle:  1,
+		freeHandles: NewUint64MinHeap(),
+		maxHandles:  maxHandles,
+	}
+}
+
+func VerifAllocPath(fm *FileHandleMap, p string) uint64 {
+	return fm.Allocate(&NFSNode{path: p, attrs: &NFSAttrs{}})
+}
+
+func VerifGetPath(fm *FileHandleMap, h uint64) (string, bool) {
+	f, ok := fm.Get(h)
+	if !ok {
+		return "", false
+	}
+	n, ok := f.(*NFSNode)
+	if !ok {
+		return "", false
+	}
+	return n.path, true
+}
+
+// VerifHandleDump returns the live table as id->path.
+func VerifHandleDump(fm *FileHandleMap) map[uint64]string {
+	fm.RLock()
+	defer fm.RUnlock()
+	out := make(map[uint64]string, len(fm.handles))
+	for h, f := range fm.handles {
+		if n, ok := f.(*NFSNode); ok {
+			out[h] = n.path
+		}
+	}
+	return out
+}
+
+func VerifFileMap(n *AbsfsNFS) *FileHandleMap       { return n.fileMap }
+func VerifSetMaxHandles(n *AbsfsNFS, max int)        { n.fileMap.Lock(); n.fileMap.maxHandles = max; n.fileMap.Unlock() }
